@@ -31,8 +31,11 @@ it. A key without one is *global*: later compilations can build the very same ke
 * the debug database: append-only tables that `DebugDatabase.write` dumps into the `_debug.xml` output;
 * the domain of the equivalence-id memo (book-keeping only: its values are the `memo` names).
 
-What each entry point resets (`cleanup`) is what `vela.py` does after a *successful* compilation; an escaping
-exception skips it.
+What is reset when: `prepare` is what happens before a compilation touches any store — `compiler_driver` empties the
+compressed-weight cache (97e1538) and the tensor address map, `process` (the `main` path) cleans the debug database —
+and `cleanup` is what `convert` / `convert_bytes` additionally do after a *successful* compilation (an escaping exception
+skips it, which no longer matters: nothing they clean is read before `prepare` has cleaned it, except the debug database
+which only `main` ever dumps).
 -/
 namespace VelaVerif.Caches
 
@@ -54,13 +57,18 @@ def memoAtoms (k : PKey) : List Nat :=
   k.filterMap fun | .memo v => some v | _ => none
 
 inductive Store where
-  /-- `weight_compressor.CompressedWeightCache.cache` -/
+  /-- `weight_compressor.CompressedWeightCache.cache` (emptied at the start of every `compiler_driver`) -/
   | weights
   /-- `architecture_features.default_arch_cache` -/
   | arch
   /-- `functools.lru_cache` on `range_set.MemoryAccessSet.conflicts` -/
   | conflict
 deriving DecidableEq, Repr
+
+/-- does the content of the store outlive a compilation? -/
+def Store.persists : Store → Bool
+  | .weights => false
+  | _ => true
 
 abbrev Val := Nat
 
@@ -136,22 +144,36 @@ inductive Entry where
   | convertBytes
 deriving DecidableEq, Repr
 
-/-- What the entry point clears after a successful compilation (`vela.py`): `main` nothing, `convert`
-`DebugDatabase.clean_db()`, `convert_bytes` `DebugDatabase.clean_db()` and `TensorAddressMap.clear_address_map()`.
-Nothing clears the compressed-weight cache, the equivalence-id memo, `default_arch_cache` or the conflict memo. -/
+/-- What is cleared before a compilation reads or writes any store: `compiler_driver` starts with
+`CompressedWeightCache.cache.clear()` and `TensorAddressMap.clear_address_map()` (all entry points go through it),
+`process` — the `main` path — with `DebugDatabase.clean_db()`. Nothing clears the equivalence-id memo,
+`default_arch_cache` or the conflict memo. -/
+def prepare : Entry → State → State
+  | .main, st => { st with memo := st.memo.filter (fun e => e.1.1.persists), addr := [], db := [] }
+  | _, st => { st with memo := st.memo.filter (fun e => e.1.1.persists), addr := [] }
+
+/-- What the entry point additionally clears after a successful compilation (`vela.py`): `main` nothing, `convert`
+`DebugDatabase.clean_db()`, `convert_bytes` `DebugDatabase.clean_db()` and `TensorAddressMap.clear_address_map()`. -/
 def cleanup : Entry → State → State
   | .main, st => st
   | .convert, st => { st with db := [] }
   | .convertBytes, st => { st with db := [], addr := [] }
 
-/-- the same as a table of names, to be compared with what the translator finds in `vela.py` -/
+/-- the same as tables of names, to be compared with what the translator finds in `vela.py` / `compiler_driver.py`:
+reset calls of the entry point before it hands over to the compiler, at the top of `compiler_driver`, and after it -/
+def prepareNames : Entry → List String
+  | .main => ["DebugDatabase.clean_db"]
+  | _ => []
+
+def driverPrepareNames : List String := ["CompressedWeightCache.cache.clear", "TensorAddressMap.clear_address_map"]
+
 def cleanupNames : Entry → List String
   | .main => []
   | .convert => ["DebugDatabase.clean_db"]
   | .convertBytes => ["DebugDatabase.clean_db", "TensorAddressMap.clear_address_map"]
 
 def compile {ρ ω : Type} (prog : ρ → Prog ω) (e : Entry) (st : State) (rq : ρ) : Option ω × State :=
-  match run (prog rq) st with
+  match run (prog rq) (prepare e st) with
   | (some o, st') => (some o, { cleanup e st' with gen := st'.gen + 1 })
   | (none, st') => (none, { st' with gen := st'.gen + 1 })
 
@@ -177,43 +199,39 @@ def modelledStores : List String :=
   , "range_set.MemoryAccessSet.conflicts" ]
 
 /-- the fields of `WeightCompressionConfig`, in order: `[lit npu_block_type, lit ofm_block_depth,
-lit hash(str(depth_offsets)), lit dilation, <weight_value_id>]` is the key of `Store.weights` -/
+lit hash(str(depth_offsets)), lit dilation, <weight_value_id>, lit ifm_bitdepth]` is the key of `Store.weights`
+(`ifm_bitdepth` since 8757943) -/
 def weightKeyFields : List String :=
-  ["npu_block_type", "ofm_block_depth", "ofm_depth_step", "dilation", "weight_value_id"]
+  ["npu_block_type", "ofm_block_depth", "ofm_depth_step", "dilation", "weight_value_id", "ifm_bitdepth"]
 
 /-! ## The hypothesis under which a compilation cannot see the history: `cache_key_sufficient`
 
 Spelled out per store, for a value function `F` that is the same for every request:
 
-* memo tables (`weights`, `arch`, `conflict`): a key is either *local* — it contains an identity drawn by this
+* the compressed-weight cache: **no hypothesis** — it is emptied before every compilation, so whatever its key
+  leaves out (accelerator, weight shape, operator type) can only matter inside one compilation;
+* the stores that persist (`arch`, `conflict`): a key is either *local* — it contains an identity drawn by this
   compilation, so no earlier compilation can have inserted it — or the value inserted under it is `F store key`,
-  a function of the key alone. For the compressed-weight cache this says: `weight_value_id` is a fresh `uuid4`
-  (weights read from the model file), or else the five key fields determine the encoded stream — which is false
-  for a memoised `value_id`, because the stream also depends on the accelerator (cores, micro-block), on the IFM
-  bit depth and on the weight shape (`weight_cache_key_insufficient_witness`);
-  for `default_arch_cache`: the value is built from the accelerator and constants only;
-  for the conflict memo: both key components are objects of this compilation.
-* the tensor address map (`strict = true`): every identity that is given an address is local. With
-  `strict = false` global identities (memoised equivalence ids) are allowed, and the theorem needs the map to
-  have been cleared (`convert_bytes`).
-* the debug database (`strict = true`): never dumped; with `strict = false` it may be dumped and the theorem
-  needs it to have been cleaned. -/
+  a function of the key alone. For `default_arch_cache`: the value is built from the accelerator and constants only;
+  for the conflict memo: both key components are objects of this compilation;
+* the tensor address map: **no hypothesis** — emptied before every compilation; memoised identities (LUT tables, PAD
+  borders, MEAN kernels, zero biases) may receive addresses;
+* the debug database: `strict = false` allows dumping it (`--enable-debug-db`), which the theorem admits for `main`, the
+  only entry point that both cleans it first and ever writes it; `strict = true` = never dumped. -/
 inductive Suff {α : Type} (F : Store → PKey → Val) (strict : Bool) : Prog α → Prop where
   | ret (a : α) : Suff F strict (.ret a)
   | memo (s : Store) (k : PKey) (v : Val) (cont : Val → Prog α) :
-      (isLocal k = false → v = F s k) → (∀ v', Suff F strict (cont v')) → Suff F strict (.memo s k v cont)
-  | assign (k : PKey) (a : Nat) (next : Prog α) :
-      (strict = true → isLocal k = true) → Suff F strict next → Suff F strict (.assign k a next)
-  | addrOf (k : PKey) (cont : Option Nat → Prog α) :
-      (strict = true → isLocal k = true) → (∀ r, Suff F strict (cont r)) → Suff F strict (.addrOf k cont)
+      (s.persists = true → isLocal k = false → v = F s k) → (∀ v', Suff F strict (cont v')) → Suff F strict (.memo s k v cont)
+  | assign (k : PKey) (a : Nat) (next : Prog α) : Suff F strict next → Suff F strict (.assign k a next)
+  | addrOf (k : PKey) (cont : Option Nat → Prog α) : (∀ r, Suff F strict (cont r)) → Suff F strict (.addrOf k cont)
   | log (row : Nat) (next : Prog α) : Suff F strict next → Suff F strict (.log row next)
   | dump (cont : List Nat → Prog α) : strict = false → (∀ rows, Suff F strict (cont rows)) → Suff F strict (.dump cont)
 
 /-- What every history maintains (proved in `Lemmas/Caches.lean`): every local entry was made by a compilation numbered
-below `n`, every global memo entry holds the value `F` prescribes. -/
+below `n`, every global entry of a persisting memo table holds the value `F` prescribes. -/
 structure Inv (F : Store → PKey → Val) (n : Nat) (st : State) : Prop where
   memoScope : ∀ e ∈ st.memo, ∀ g, e.1.2.scope = some g → g < n
-  memoGlobal : ∀ e ∈ st.memo, e.1.2.scope = none → e.2 = F e.1.1 e.1.2.key
+  memoGlobal : ∀ e ∈ st.memo, e.1.2.scope = none → e.1.1.persists = true → e.2 = F e.1.1 e.1.2.key
   addrScope : ∀ e ∈ st.addr, ∀ g, e.1.scope = some g → g < n
 
 
@@ -235,12 +253,14 @@ def Prog.mapLit {α : Type} (f : Nat → Nat) : Prog α → Prog α
 
 /-! ## The writer: sort, then emit
 
-`tflite_writer.py` builds a `set` and sorts it before emitting, twice:
-`sorted(set((op.type, custom_code, version) …))` for the operator codes — the sort key is the element — and
-`sorted((tens.name, idx, tens) for idx, tens in enumerate(tensor_set))` for the tensors of a subgraph — the
-key is the name, ties are broken by the position `idx` in the iteration order of the set. Iteration order of
-a set of objects hashed by `id()` is an arbitrary permutation; `emitOrder key l` is the emitted order when the
-set is iterated in the order `l` (a stable insertion sort = sorting by `(key, position)`). -/
+`tflite_writer.py` builds a collection and sorts it before emitting, twice:
+`sorted(set((op.type, custom_code, version) …))` for the operator codes — a `set`, whose iteration order is an
+arbitrary permutation (hash seed, `id()`), sorted with the element itself as key — and
+`sorted((tens.name, idx, tens) for idx, tens in enumerate(tensor_set))` for the tensors of a subgraph — the key is
+the name, ties are broken by the position `idx` in the iteration order of `tensor_set`. Since PENDING-4 `tensor_set`
+is an insertion-ordered `dict` filled in graph order, so that order is a function of the model; before, it was a
+`set` of `id()`-hashed tensors. `emitOrder key l` is the emitted order when the collection is iterated in the order
+`l` (a stable insertion sort = sorting by `(key, position)`). -/
 
 def insertBy {α : Type} (key : α → Nat) (a : α) : List α → List α
   | [] => [a]
